@@ -114,6 +114,8 @@ class Ctx:
         self.known_hit = {}       # finding id -> count
         self.tlc_runs = []
         self.model_only = []
+        self.observations = {}    # class -> [count, first detail]: behaviour an extension module demands and the
+                                  # property's statement does not - reported, never a verdict
         self.kf = load_known_findings(pid)
         self.deadline = None
 
@@ -266,6 +268,20 @@ class Ctx:
         for f in lst or []:
             self.failure(f.get("class", "unclassified"), f.get("detail", ""), f.get("case"))
 
+    def observe(self, klass, detail, case=None):
+        """A deviation from an extension module's specification that lies OUTSIDE the statement of the hosting
+        property: printed and kept in the evidence, it never makes the check fail."""
+        o = self.observations.setdefault(klass, [0, detail[:700], case])
+        o[0] += 1
+
+    def failures_scoped(self, lst, in_scope):
+        """failures whose class is in the property's scope are verdicts, the others observations"""
+        for f in lst or []:
+            if in_scope(f.get("class", "")):
+                self.failure(f.get("class", "unclassified"), f.get("detail", ""), f.get("case"))
+            else:
+                self.observe(f.get("class", "unclassified"), f.get("detail", ""), f.get("case"))
+
     def sample(self, s, limit=8):
         if len(self.samples) < limit:
             self.samples.append(s)
@@ -285,6 +301,7 @@ class Ctx:
                 "tlc_runs": self.tlc_runs,
                 "known_findings_hit": self.known_hit,
                 "model_only": self.model_only,
+                "observations_outside_the_property": {k: {"count": v[0], "first": v[1]} for k, v in self.observations.items()},
             },
             "assumptions": self.assumptions,
             "wall_s": round(time.time() - self.t0, 2),
@@ -300,6 +317,8 @@ class Ctx:
         for fid, n in sorted(self.known_hit.items()):
             f = [x for x in self.kf if x["id"] == fid][0]
             print("KNOWN-FINDING: property=%s %s [%s, %d case(s) in this run]" % (self.pid, f["what"], fid, n))
+        for k, v in sorted(self.observations.items()):
+            print("OBSERVATION (outside the statement of %s, no verdict): class=%s count=%d first=%s" % (self.pid, k, v[0], v[1][:300]))
         if self.violations:
             os.makedirs(os.path.join(evdir, "replays"), exist_ok=True)
             # group by class: one replay file per class
